@@ -279,6 +279,14 @@ def lib_preamble():
         r = Rng(12345)
         texts = [tpl for a in gen.ALIAS for tpl in (a + "|\n |", " " + a + "\n+", "a\n|" + a + "\n|\nb", a + "-" + a,
                                                     "-" + a + "\n" + a + "+", a + "\n|", "+" + a)]
+        # every arrow head, bullet and corner character with such a glyph as its only neighbour, in each of the eight places
+        for g in gen.ALIAS_GLYPHS:
+            for c in "vV^<>oO*+.'":
+                for (dx, dy) in ((-1, -1), (0, -1), (1, -1), (-1, 0), (1, 0), (-1, 1), (0, 1), (1, 1)):
+                    rows = [[" "] * 3 for _ in range(3)]
+                    rows[1][1] = c
+                    rows[1 + dy][1 + dx] = g
+                    texts.append("\n".join("".join(row).rstrip() for row in rows))
         texts += [gen.circle_pair(r) for _ in range(8)] + ["()", "(_)", "*--", "+--+\n|{a}|\n+--+\n# Legend:\na = {fill:red}\n"]
         texts += [gen.zoo(r) for _ in range(12)]
         _PREAMBLE = ["pre%d to_svg default %s" % (i, hx(t)) for i, t in enumerate(texts)]
